@@ -207,3 +207,32 @@ Print Assumptions C15_tie_other_methods_inert.
 Print Assumptions C15_tie_call_refinement.
 Print Assumptions C15_tie_ref_states_are.
 Print Assumptions C15_tie_run_session_finally_reached.
+
+(** ---- tie of the refusals to the regenerated wiring (session 5): Gen/MachineWiring.v (translate/machine_wiring.py),
+    Gen/FsmConfig.v, Life/MachineTie.v.  [script src tr = None] = the transitions library raises MachineError. *)
+From NL Require Gen.FsmConfig Life.MachineSyntax Gen.MachineWiring Life.MachineTie.
+
+(** run is refused unless the state is `initialized` -- of the code (no row / MachineError) and of the model *)
+Theorem C15_tie_machine_run_refused_unless_initialized : forall s t c,
+  (st_fsm s <> Initialized -> MachineTie.script (st_fsm s) FsmConfig.TRun = None /\ enter_run s t c = refuse s t c) /\
+  (st_fsm s = Initialized -> MachineTie.script (st_fsm s) FsmConfig.TRun <> None /\ st_fsm (enter_run s t c) = Running).
+Proof. exact MachineTie.run_refused_unless_initialized. Qed.
+
+(** reset is refused while running *)
+Theorem C15_tie_machine_reset_refused_while_running : forall s t o, st_fsm s = Running ->
+  MachineTie.script (st_fsm s) FsmConfig.TReset = None /\ enter_reset s t o = refuse s t (CReset o).
+Proof. exact MachineTie.reset_refused_while_running. Qed.
+
+(** the accepted run: state := running, Callback.start_run (new events, the run task), started.wait(), on_change_state *)
+Theorem C15_tie_machine_enter_run : forall s t c, enter_run s t c = MachineTie.api_trigger t c FsmConfig.TRun s.
+Proof. exact MachineTie.tie_enter_run. Qed.
+
+(** invalid triggers raise (are not ignored), nothing is queued *)
+Theorem C15_tie_machine_flags : FsmConfig.ignore_invalid_triggers = false /\ FsmConfig.queued = false /\ MachineTie.model_is_self = true /\
+  MachineTie.wired_after_state_change = ["after_state_change"%string] /\ MachineTie.callback_backref = true.
+Proof. exact MachineTie.config_flags. Qed.
+
+Print Assumptions C15_tie_machine_run_refused_unless_initialized.
+Print Assumptions C15_tie_machine_reset_refused_while_running.
+Print Assumptions C15_tie_machine_enter_run.
+Print Assumptions C15_tie_machine_flags.
